@@ -134,14 +134,45 @@ def roundtrips(ctx, quick):
         # ---- clusters
         if crys.dim == 3:
             def y_clusters():
-                cl = [c for cs in cluster.makeclusters(crys, cutoff, 3) for c in sorted(cs, key=str)[:2]][:8]
+                base_ = cluster.makeclusters(crys, cutoff, 3)
+                cl = [c for cs in base_ for c in sorted(cs, key=str)[:2]][:8]
+                # every flavour: vacancy clusters, transition-state clusters, and transition-state clusters of the
+                # vacancy expansion (both flags at once)
+                vac_ = cluster.makeVacancyClusters(crys, chem, base_)
+                jn_ = crys.jumpnetwork(chem, cutoff)
+                for expn in (vac_, cluster.makeTSclusters(crys, chem, jn_, base_),
+                             cluster.makeTSclusters(crys, chem, jn_, vac_)):
+                    cl += [c for cs in expn for c in sorted(cs, key=str)[:1]][:6]
                 cl2 = [yaml.load(yaml.dump(c), Loader=yaml.Loader) for c in cl]
                 asserts.append(same("cluster_yaml_equal", [True] * len(cl), [bool(a == b) for a, b in zip(cl, cl2)]))
+                asserts.append(same("cluster_yaml_equal_hash", [hash(a) for a in cl], [hash(b) for b in cl2]))
+                asserts.append(same("cluster_yaml_flavour", [str(a) for a in cl], [str(b) for b in cl2]))
                 sites = [cs for c in cl for cs in c][:8]
                 sites2 = [yaml.load(yaml.dump(cs), Loader=yaml.Loader) for cs in sites]
                 asserts.append(same("clustersite_yaml_equal", [True] * len(sites),
                                     [bool(a == b) for a, b in zip(sites, sites2)]))
             attempt("cluster_yaml", y_clusters)
+
+        # ---- vacancy-mediated calculator: the reloaded object has the same networks (before and after use)
+        if name in ("fcc", "honeycomb", "hcp", "b2", "polarrect", "square", "bcc"):
+            def h_vm():
+                from onsager import OnsagerCalc
+                v1 = OnsagerCalc.VacancyMediated(crys, chem, sitelist, jn, 1)
+                D1 = OnsagerCalc.Interstitial(crys, chem, sitelist, jn).diffusivity(
+                    np.ones(len(sitelist)), np.zeros(len(sitelist)), np.ones(len(jn)), np.zeros(len(jn)))
+                percolates = np.min(np.linalg.eigvalsh(0.5 * (D1 + D1.T))) > 1e-6     # precondition of the Green function
+                if n % 2 == 0 and percolates:
+                    td = {t: (1.0, 0.0) for tt in v1.tags.values() for tl in tt for t in list(tl)[:1]}
+                    v1.Lij(*v1.preene2betafree(1.0, **v1.tags2preene(td)))       # populate the caches first
+                v1.addhdf5(f.create_group("vm%d" % n))
+                v2 = OnsagerCalc.VacancyMediated.loadhdf5(f["vm%d" % n])
+                net = lambda c: [[[[int(i), int(j), np.asarray(dx, dtype=float)] for (i, j), dx in jl] for jl in jn_]
+                                 for jn_ in (c.om0_jn, c.om1_jn, c.om2_jn)]
+                asserts.append(same("vacancymediated_hdf5_networks", net(v1), net(v2)))
+                asserts.append(same("vacancymediated_hdf5_jumptypes", [list(map(int, v1.om1_jt)), list(map(int, v1.om2_jt))],
+                                    [list(map(int, v2.om1_jt)), list(map(int, v2.om2_jt))]))
+                asserts.append(same("vacancymediated_hdf5_tags", repr(sorted(v1.tagdict.items())), repr(sorted(v2.tagdict.items()))))
+            attempt("vacancymediated_hdf5", h_vm)
 
         # ---- Taylor expansions
         def h_taylor():
